@@ -144,7 +144,10 @@ class Run:
             return
         en = self.flags["vec"] and self.flags["grp"]
         o = op[0]
-        if o in ("assign", "set_value") and en:
+        vetoed = bool(self.p.get("write_veto")) and o in ("set_value", "cwrite") and op[1].upper() == "A"
+        if vetoed:
+            pass  # the Write handler on A defers the change and never confirms it: nothing is published
+        elif o in ("assign", "set_value") and en:
             self.blob_strict[op[1].upper()] = True
         elif o == "cwrite" and en:
             self.blob_strict[op[1]] = True
